@@ -34,11 +34,12 @@ def fn(d, val=lambda v: v):
 
 
 def mc_defs(readers, streams, plan, cols, ncol=1, flushers=None, stoppers=None, maxticks=0, variant="ok",
-            eager=False, conserved=True, abort="may", cberr=False, strict=False):
+            eager=False, conserved=True, abort="may", cberr=False, strict=False, unwired=()):
     """readers: [(name, temp, kind)] in pipeline order; plan: {recorder: [(key, i)]}; cols: {collector: reader}"""
     return {
-        "RD": fn({n: '[temp |-> "%s", kind |-> "%s"]' % (t, k) for n, t, k in readers}),
-        "PORDER": "<<" + ", ".join(q(n) for n, _, _ in readers) + ">>",
+        "RD": fn({r[0]: '[temp |-> "%s", kind |-> "%s", wired |-> %s]' % (r[1], r[2], "FALSE" if r[0] in unwired else "TRUE")
+                  for r in readers}),
+        "PORDER": "<<" + ", ".join(q(r[0]) for r in readers) + ">>",
         "STREAMS": "<<" + ", ".join(q(s) for s in streams) + ">>",
         "PLAN": fn(plan, lambda ids: "<<" + ", ".join('<<"%s", %d>>' % (k, i) for k, i in ids) + ">>"),
         "COLRD": fn(cols, q), "FRD": fn(flushers or {}, q), "SRD": fn(stoppers or {}, q),
@@ -63,7 +64,16 @@ FAMILY_QUICK = {
     "dp-g1x2-c1-f1-s1-t1": dict(readers=R(DP), streams=["k1"], plan={"g1": [("k1", 0), ("k1", 1)]}, cols={"c1": "r1"}, ncol=1,
                                 flushers={"f1": "r1"}, stoppers={"s1": "r1"}, maxticks=1),
 }
+# partial instrument-creation errors: resolution fails for a subset of the readers (first / middle / last registered / two);
+# every reader for which the instrument resolved must still see every measurement
+def _subset(unw):
+    return dict(readers=R(DM, CM, DM), streams=["k1"], plan={"g1": [("k1", 0), ("k1", 1)]},
+                cols={"c1": "r1", "c2": "r2", "c3": "r3"}, ncol=1, unwired=unw)
+
+
+FAMILY_QUICK.update({"unwired-first": _subset(("r1",)), "unwired-middle": _subset(("r2",)), "unwired-last": _subset(("r3",))})
 FAMILY_THOROUGH = {
+    "unwired-first+last": _subset(("r1", "r3")),
     # two collectors on the same delta reader (overlapping collections of one reader), two streams
     "dm-2streams-g2-c2same": dict(readers=R(DM), streams=["k1", "k2"], plan={"g1": [("k1", 0), ("k2", 0)], "g2": [("k1", 1)]},
                                   cols={"c1": "r1", "c2": "r1"}, ncol=2),
@@ -83,7 +93,7 @@ FAMILY_THOROUGH = {
 # broken mechanisms TLC must find (guards against a vacuous contract): variant -> (config, expected clause)
 BROKEN = {
     "split": "dm-cm-g2x3-c2x2", "noclear": "dm-cm-g2x3-c2x2", "nostart": "dm-cm-g2x3-c2x2",
-    "firstonly": "dm-cm-g2x3-c2x2", "nofinal": "dp-g1x2-c1-f1-s1-t1",
+    "firstonly": "dm-cm-g2x3-c2x2", "nofinal": "dp-g1x2-c1-f1-s1-t1", "stopaterr": "unwired-middle",
 }
 
 # ---------------------------------------------------------------------------------------------------- scenarios
@@ -96,14 +106,15 @@ def base_scenario(name, readers, nstreams, plan, cols, ncol, flushers=None, stop
             count[k] = max(count[k], i + 1)
     return dict(
         name=name,
-        readers=[dict(name=n, temp=t, kind=k, intervalUs=0, expMode="ok") for n, t, k in readers],
+        readers=[dict(name=n, temp=t, kind=k, intervalUs=0, expMode="ok", badAgg=False) for n, t, k in readers],
         insts=[dict(name="inst%d" % (i + 1), kind="counter", num="int64", late=False) for i in range(nstreams)],
         streams=[dict(key=k, inst=i, attr=1, n=max(count[k], 1), neg=[]) for i, k in enumerate(keys)],
         recs=[[dict(key=k, i=i) for k, i in plan[g]] for g in sorted(plan)],
         cols=[dict(name=c, reader=r, n=ncol, provider=False, delayUs=0) for c, r in sorted(cols.items())],
         flushers=[dict(name=f, reader=r, n=1, provider=False, delayUs=0) for f, r in sorted((flushers or {}).items())],
         stoppers=[dict(name=z, reader=r, provider=False, delayUs=0) for z, r in sorted((stoppers or {}).items())],
-        callback=True, filter=True, script=script or [], perturb=0.0, storm=False, ownHandles=False, cbErrPct=0, cbErrAt=[])
+        callback=True, filter=True, script=script or [], perturb=0.0, storm=False, ownHandles=False, cbErrPct=0, cbErrAt=[],
+        hammer=0, cold=0, badView=False)
 
 
 SIMS = {
@@ -157,6 +168,37 @@ DIRECTED = [
 ]
 
 
+def forced_split(name, readers, col_reader, pipe, hold_ms=3, settle_ms=20):
+    """The schedule TLC gives for the broken `split` variant (Comp = copy ... RLock/RUnlock of queued Adds ... Clear),
+    forced on the real code as far as natural gates allow: holder g1 parks in the exemplar filter while it owns the
+    stream mutex of pipeline `pipe`; Add(g2), the Collect and Add(g3..g5) queue on that mutex in this order (queue
+    length read off the goroutine dump); the holder releases, records again at once (the woken g2 finds the mutex taken
+    after > 1 ms: sync.Mutex starvation mode = FIFO hand-off) and releases again: g2, Collect's critical section,
+    g3, g4, g5 run in queue order -- a collection that needs the mutex a second time finds g3..g5 in between."""
+    f = "@f%d" % pipe
+    return dict(
+        name=name,
+        readers=[dict(name=n, temp=t, kind=k, intervalUs=0, expMode="ok", badAgg=False) for n, t, k in readers],
+        insts=[dict(name="inst1", kind="counter", num="int64", late=False)],
+        streams=[dict(key="k1", inst=0, attr=1, n=6, neg=[])],
+        recs=[[dict(key="k1", i=0), dict(key="k1", i=1)], [dict(key="k1", i=2)], [dict(key="k1", i=3)], [dict(key="k1", i=4)],
+              [dict(key="k1", i=5)]],
+        cols=[dict(name="c1", reader=col_reader, n=1, provider=False, delayUs=0)],
+        flushers=[], stoppers=[], callback=False, filter=True, script=[], perturb=0.0, storm=False, ownHandles=False,
+        cbErrPct=0, cbErrAt=[], hammer=0, cold=0, badView=False,
+        steps=["start:g1:1", "awaitpark:g1:1" + f, "start:g1:2", "start:g2:1", "awaitq:1", "start:c1:1", "awaitq:2",
+               "start:g3:1", "awaitq:3", "start:g4:1", "awaitq:4", "start:g5:1", "awaitq:5", "sleep:%d" % hold_ms,
+               "release:g1:1" + f, "awaitpark:g1:2" + f, "sleep:%d" % settle_ms, "release:g1:2" + f])
+
+
+FORCED = [
+    ("forced-queue-delta", R(DM), "r1", 1),
+    ("forced-queue-delta+cumulative", R(DM, CM), "r1", 1),
+    ("forced-queue-second-pipeline", R(CM, DM), "r2", 2),
+    ("forced-queue-periodic-user-collect", R(DP), "r1", 1),
+]
+
+
 def scenario_of(name, cfg, script, **extra):
     sc = _scenario_of(name, cfg, script)
     sc.update(extra)
@@ -168,13 +210,19 @@ def _scenario_of(name, cfg, script):
                          cfg.get("flushers"), cfg.get("stoppers"), script)
 
 
-def classify(v):
-    """violation record -> small flat signature (matched against known_findings/C02.json)"""
+def classify(v, cfg):
+    """violation record (+ the Cfg line of its scenario) -> small flat signature (matched against known_findings/C02.json)"""
     vv = v.get("v", {})
     sig = {"kind": vv.get("kind", "?")}
     for k in ("temp", "via", "rkind"):
         if k in vv:
             sig[k] = vv[k]
+    ids = [vv["id"]] if "id" in vv else vv.get("ids", [])
+    if ids and isinstance(ids[0], list) and not isinstance(ids[0][0], list):
+        obs = cfg.get("obskeys", [])
+        sig["inst"] = "observable" if all(i[0] in obs for i in ids) else "sync"
+    if cfg.get("partial"):
+        sig["partial_creation_error"] = True
     return sig
 
 
@@ -244,6 +292,9 @@ def run(ctx):
     for d in DIRECTED:
         for rep in range(4 if thorough else 2):
             scenarios.append(scenario_of(d["name"], d["cfg"], d["script"], cbErrAt=d.get("cbErrAt", [])))
+    for rep in range(12 if thorough else 4):
+        for name, readers, colrd, pipe in FORCED:
+            scenarios.append(forced_split(name, readers, colrd, pipe, hold_ms=3 + 2 * rep, settle_ms=10 + 10 * (rep % 4)))
     sfile = os.path.join(ctx.work, "scripts.json")
     json.dump(scenarios, open(sfile, "w"))
     jobs = [("scripts", ["scripts", "-in", sfile])]
@@ -253,6 +304,8 @@ def run(ctx):
         jobs.append(("random%d" % (i // chunk), ["random", "-n", str(chunk), "-seedoff", str(i)]))
     for i in range(0, nstorm, chunk):
         jobs.append(("storm%d" % (i // chunk), ["random", "-storm", "-n", str(chunk), "-seedoff", str(100000 + i)]))
+    npart = 1200 if thorough else 200
+    jobs.append(("partial", ["partial", "-n", str(npart)]))
     results = {}
     for label, args in jobs:   # the harness runs are sequential (they are the concurrency experiment)
         tf = os.path.join(ctx.work, "trace-%s.ndjson" % label)
@@ -267,9 +320,10 @@ def run(ctx):
             counters[k] = counters.get(k, 0) + v
     ctx.extra["counters"] = counters
     ctx.extra["tlc_behaviours_replayed"] = nbeh
-    ctx.extra["directed_schedules"] = len(scenarios) - nbeh
+    ctx.extra["directed_schedules"] = len(scenarios) - nbeh   # hand-written gate scripts + forced mutex-queue choreographies
     ctx.extra["random_scenarios"] = nrand
     ctx.extra["storm_scenarios"] = nstorm
+    ctx.extra["partial_creation_scenarios"] = npart
     if scenarios:
         ctx.add_samples([{"behaviour_script": scenarios[0]["script"][:40]}])
     ctx.add_samples(results["random0"][1]["samples"][:1])
@@ -287,9 +341,6 @@ def run(ctx):
         lines_total += accepted
         lines = None
         for v in viols:
-            sig = classify(v)
-            sig["source"] = "scripts" if label == "scripts" else ("storm" if label.startswith("storm") else "random")
-            kinds[sig["kind"]] = kinds.get(sig["kind"], 0) + 1
             if lines is None:
                 lines = open(tf).read().splitlines()
             scen = []
@@ -299,6 +350,12 @@ def run(ctx):
                     break
                 scen.append(rec)
             scen.reverse()
+            cfg = scen[0] if scen and scen[0].get("ev") == "Cfg" else {}
+            sig = classify(v, cfg)
+            sig["source"] = ("scripts" if label == "scripts" else "storm" if label.startswith("storm") else
+                             "partial" if label == "partial" else "random")
+            kname = sig["kind"] + ("/observable" if sig.get("inst") == "observable" and sig.get("partial_creation_error") else "")
+            kinds[kname] = kinds.get(kname, 0) + 1
             ctx.violation(sig, replay={"violation": v, "trace_file": tf, "events": scen[-300:]})
     # binding self-test: corrupt one digit of one recorded report and make sure the trace spec rejects it
     # (the resulting "violations" are of the corrupted copy, not of the code: never reported)
@@ -326,13 +383,17 @@ def run(ctx):
             ctx.note_inconclusive("binding self-test: corrupted trace (%s) was not rejected as %s (got %s)" % (label, want, got))
     ctx.extra["trace_lines_validated"] = lines_total
     ctx.extra["violation_kinds_seen"] = kinds
+    if counters.get("choreography_steps_timed_out", 0) > counters.get("choreography_steps", 0) // 4:
+        ctx.note_inconclusive("forced schedules mostly missed: %d of %d choreography steps timed out" %
+                              (counters["choreography_steps_timed_out"], counters["choreography_steps"]))
     if "lost-after-callback-error" not in kinds and any(k.get("status") == "known" for k in ctx._known):
         ctx.extra["note"] = "the known deviation D1 was not reproduced in this run (fixed tree?): %s" % kinds
     ctx.traces_validated += executed
     ctx.evaluations += counters.get("adds", 0) + counters.get("reports", 0)
     # vacuity of the drivers: the interesting regimes must have been reached
     need = ["reports_nonempty_delta", "reports_with_adds_in_flight", "exports_run_loop", "exports_shutdown", "forceflush_ok",
-            "shutdown_ok", "script_steps_followed", "callback_errors"]
+            "shutdown_ok", "script_steps_followed", "callback_errors", "instrument_creation_errors", "partial_bad_first",
+            "partial_bad_middle", "partial_bad_last", "partial_bad_view_scenarios", "choreography_steps"]
     missing = [k for k in need if counters.get(k, 0) == 0]
     if missing:
         ctx.note_inconclusive("driver did not reach: %s" % missing)
